@@ -26,7 +26,7 @@ func init() { register("C15", func() core.Check { return &c15{} }) }
 
 func (*c15) Level() string { return "exploration" }
 func (*c15) Rule() string {
-	return "case = (training file set, target file, placeholder) drawn from training kinds {empty, comments only, no transactions, one account, only bookings with the placeholder, symmetric data with exact score ties, rich, rich with placeholder and macros, training = target, include tree} x target bookings with the placeholder on credit / debit / both sides / absent, several bookings per transaction, macro accounts, addons, other directives, layout noise (tabs, CRLF, comments, missing final newline) x placeholder names (default, -a with ASCII / non-ASCII / one-segment / macro name); 8 stdout runs + 1 --inplace run per case; oracle = output equals `knut format` of the target line by line except booking accounts whose original text is the placeholder (booking lines compared as whitespace-separated tokens), each replacement is an account of a training booking, != placeholder, != the other account of the booking as it stands in the output, the placeholder stays when the training bookings offer no candidate, the output is accepted by `knut format` and is its fixpoint, all 9 outputs byte-identical; non-trivial = target with >=1 booking side equal to the placeholder whose 9 runs all succeeded; distinct = hash of all input files + argv"
+	return "case = (training file set, target file, placeholder) drawn from training kinds {empty, comments only, no transactions, one account, only bookings with the placeholder, symmetric data with exact score ties, two candidates whose per-word counts are permutations of one another, rich, rich with placeholder and macros, training = target, include tree} x target bookings with the placeholder on credit / debit / both sides / absent, several bookings per transaction, macro accounts, addons, other directives, layout noise (tabs, CRLF, comments, missing final newline) x placeholder names (default, -a with ASCII / non-ASCII / one-segment / macro name); 8 stdout runs + 1 --inplace run per case; oracle = output equals `knut format` of the target line by line except booking accounts whose original text is the placeholder (booking lines compared as whitespace-separated tokens), each replacement is an account of a training booking, != placeholder, != the other account of the booking as it stands in the output, the placeholder stays when the training bookings offer no candidate, the output is accepted by `knut format` and is its fixpoint, all 9 outputs byte-identical; non-trivial = target with >=1 booking side equal to the placeholder whose 9 runs all succeeded; distinct = hash of all input files + argv"
 }
 
 func (k *c15) Setup(c *core.Ctx) (int, error) {
@@ -196,7 +196,8 @@ type c15Case struct {
 	flagA     bool   // pass -a explicitly
 	train     []c15B // all bookings of the training set (include closure)
 	target    []c15Item
-	phSides   int // booking sides equal to the placeholder in the target
+	fixed     []c15Item // target prescribed by the training kind
+	phSides   int       // booking sides equal to the placeholder in the target
 }
 
 func c15Placeholder(r *rand.Rand) (string, bool) {
@@ -419,7 +420,7 @@ func c15Generate(r *rand.Rand) *c15Case {
 	}
 	var trainT []*c15T // transactions of the main training file
 	var trainItems []c15Item
-	kind := r.Intn(12)
+	kind := r.Intn(13)
 	accs := c15TrainAccounts(r, ph, 2+r.Intn(7))
 	switch kind {
 	case 0:
@@ -496,6 +497,34 @@ func c15Generate(r *rand.Rand) *c15Case {
 	case 11:
 		cs.kind = "include-tree"
 		trainT = c15RichTrain(r, accs, ph, 2+r.Intn(10), r.Intn(3) == 0, false)
+	case 12:
+		// two candidates whose per-word counts are permutations of one another: their scores are
+		// the same sum of logarithms in a different order, so that only a fixed order of
+		// summation (and of candidates) makes the winner reproducible
+		cs.kind = "permuted-count-ties"
+		if len(accs) < 3 {
+			accs = c15TrainAccounts(r, ph, 4)
+		}
+		a, b, x := accs[0], accs[1], accs[2]
+		words := []string{"alpha", "beta", "gamma", "delta", "epsilon", "zeta", "eta"}[:3+r.Intn(5)]
+		counts := make([]int, len(words))
+		for i := range counts {
+			counts[i] = 1 + r.Intn(9)
+		}
+		perm := r.Perm(len(words))
+		qty, com, date := c15Qty(r), c15Coms[r.Intn(len(c15Coms))], c15Date(r)
+		for i, w := range words {
+			for n := 0; n < counts[i]; n++ {
+				trainT = append(trainT, &c15T{date: c15Date(r), desc: w, bks: []c15B{{x, a, qty, com}}})
+			}
+			for n := 0; n < counts[perm[i]]; n++ {
+				trainT = append(trainT, &c15T{date: c15Date(r), desc: w, bks: []c15B{{x, b, qty, com}}})
+			}
+		}
+		r.Shuffle(len(trainT), func(a, b int) { trainT[a], trainT[b] = trainT[b], trainT[a] })
+		for n := 1 + r.Intn(3); n > 0; n-- {
+			cs.fixed = append(cs.fixed, c15Item{txn: &c15T{date: date, desc: strings.Join(words, " "), bks: []c15B{{x, ph, qty, com}}}})
+		}
 	}
 	if trainItems == nil {
 		trainItems = c15TxnItems(trainT)
@@ -535,6 +564,9 @@ func c15Generate(r *rand.Rand) *c15Case {
 	}
 	if !cs.sameFile {
 		cs.target, _ = c15Target(r, ph, accs, trainT)
+		if cs.fixed != nil {
+			cs.target = cs.fixed
+		}
 	}
 	cs.files["target.knut"] = []byte(c15Render(r, cs.target, lay()))
 	for _, it := range cs.target {
